@@ -183,6 +183,25 @@ fn c15_filenames_symbolic_dat() {
     filenames_case(0, 5, 6, 0, dat);
 }
 
+/// the same concrete case with loop-free comparisons and a small unwind bound (the formatting
+/// machinery recurses through `dyn Write` up to the bound)
+#[kani::proof]
+#[kani::unwind(4)]
+fn c15_filenames_noloop_concrete() {
+    let r = Repository { name: String::new(), platform: Platform::PS3, repo_type: RepositoryType::Expansion { number: 1 }, version: None };
+    let idx = r.index_filename(2, Category::EXD);
+    let b = idx.as_bytes();
+    assert_eq!(b.len(), 16);
+    assert!(b[0] == b'0' && b[1] == b'a' && b[2] == b'0' && b[3] == b'1' && b[4] == b'0' && b[5] == b'2' && b[6] == b'.');
+    assert!(b[7] == b'p' && b[8] == b's' && b[9] == b'3' && b[10] == b'.' && b[11] == b'i' && b[15] == b'x');
+    let d = r.dat_filename(2, Category::EXD, 3);
+    let e = d.as_bytes();
+    assert_eq!(e.len(), 15);
+    assert!(e[0] == b'0' && e[1] == b'a' && e[2] == b'0' && e[3] == b'1' && e[4] == b'0' && e[5] == b'2' && e[6] == b'.');
+    assert!(e[7] == b'p' && e[8] == b's' && e[9] == b'3' && e[10] == b'.' && e[11] == b'd' && e[14] == b'3');
+    core::mem::forget((idx, d, r));
+}
+
 #[kani::proof]
 fn c15r_pipeline_witness() {
     let a = repo(any_type());
